@@ -17,7 +17,7 @@ MANIFEST = dict(
     text="Symbolic check of MethodRegistry.add / add_methods / view / merge and the dispatcher front-ends: registration histories are concrete skeletons (prefix chains up to 3 registries deep over {None, '', 'a', 'a.b'} with every "
          "single registration form at the innermost level; histories of <= 2 (quick) / <= 3 (thorough) operations over two nested registries incl. re-registration under an existing name and explicit merges), then the registry is attached to the sync or async dispatcher "
          "and probed with a request whose method name is an UNBOUNDED symbolic string. Oracle: reference name map computed from the statement (dot-joined non-empty prefixes + view prefix + explicit or own name; later registration replaces earlier; "
-         "views expose public callables only); probe reaches method X iff probe equals a reference name bound to X, otherwise -32601.",
+         "views expose public callables only; a function registered on the dispatcher after the attachment does not become callable through the source registries); probe reaches method X iff probe equals a reference name bound to X, otherwise -32601.",
     ref='5 C15',
     note="Method objects handed to add_methods of a *prefixed* registry are not part of the corpus (the statement does not say whether the registry prefix applies to them). Functions are told apart by the value they return.",
 )
@@ -126,6 +126,34 @@ def _probe(env, d, wire, is_async, ref, what):
     return ['reached', want]
 
 
+def _after_attachment(d, regs, chains, ref, is_async):
+    """Registrations made AFTER the attachment. A function registered on the dispatcher is callable there under its own name
+    and must not become callable through the source registries (it was not added through them): each source registry is
+    attached to a fresh dispatcher and its name set compared. A function registered on a source registry after the merge was
+    not added through the dispatcher; the statement does not say whether a merge is a copy or a live link, so the only demand
+    is that IF it is callable on the dispatcher, then under the dot-joined prefix chain + own name (`chains[i]`)."""
+    import pjrpc.server
+    cls = pjrpc.server.AsyncDispatcher if is_async else pjrpc.server.Dispatcher
+    d.add(_fn('dlate', 'T-dlate', is_async))
+    ref['dlate'] = 'T-dlate'
+    for r in regs:
+        d2 = cls()
+        d2.add_methods(r)
+        leaked = [k for k in d2.registry.keys() if k.endswith('dlate')]
+        if leaked:
+            raise Violation('callable-through-a-registry-it-was-not-added-through', leaked)
+    allowed = {}
+    for i, r in enumerate(regs):
+        r.add(_fn(f'late{i}', f'T-late{i}', is_async))
+        allowed[_join(*chains[i], f'late{i}')] = f'T-late{i}'
+    keys = set(d.registry.keys())
+    if not (set(ref.keys()) <= keys) or not (keys <= set(ref.keys()) | set(allowed.keys())):
+        raise Violation('registry-key-set-after-late-registrations', (sorted(keys), sorted(ref.keys()), sorted(allowed.keys())))
+    for k, t in allowed.items():
+        if k in keys:
+            ref[k] = t
+
+
 def h_chain(ob):
     def run(env):
         import pjrpc.server
@@ -163,6 +191,7 @@ def h_chain(ob):
         d.add_methods(regs[0])
         if set(d.registry.keys()) != set(ref.keys()):
             raise Violation('registry-key-set', (sorted(d.registry.keys()), sorted(ref.keys())))
+        _after_attachment(d, regs, [prefs[:i + 1] for i in range(len(regs))], ref, is_async)
         return _probe(env, d, wire, is_async, ref, (prefs, form))
 
     return run
@@ -217,6 +246,7 @@ def h_history(ob):
         final.setdefault('top', 'T-top')
         if set(d.registry.keys()) != set(final.keys()):
             raise Violation('registry-key-set', (sorted(d.registry.keys()), sorted(final.keys())))
+        _after_attachment(d, [regs[1], regs[2]], [[P[1]], [P[1], P[2]]], final, is_async)
         return _probe(env, d, wire, is_async, final, ob['seq'])
 
     return run
